@@ -49,6 +49,7 @@ type CertSpec struct {
 	OCSPSigner bool // EKU = OCSPSigning (delegated responder)
 	SelfSigned bool
 	ExtraExts  []pkix.Extension
+	RawSubject []byte                  // when set, the subject DN is exactly these bytes (a look-alike name)
 	RawEKU     []asn1.ObjectIdentifier // when set, written as a raw EKU extension
 	RawEKUCrit bool
 }
@@ -104,6 +105,9 @@ func Issue(spec *CertSpec, parent *Cert) (*Cert, error) {
 		OCSPServer:            spec.OCSP,
 		CRLDistributionPoints: spec.CRL,
 		ExtKeyUsage:           spec.EKU,
+	}
+	if len(spec.RawSubject) > 0 {
+		tmpl.RawSubject = spec.RawSubject
 	}
 	if !spec.NoKeyUsage {
 		tmpl.KeyUsage = spec.KeyUsage
